@@ -2,7 +2,9 @@
    Property theorems only; proofs in proofs/SchedProofs.v, model in model/Sched.v (shared with C10),
    constants and SQL fragments in gen/GenSched.v (regenerated from the repository). *)
 From Coq Require Import List NArith Bool Arith.
-From SV Require Import lib.Bytes lib.SqlExpr gen.GenSched model.Sched proofs.SchedProofs.
+From SV Require Import model.Graph model.GraphInv.
+From SV Require Import lib.Bytes lib.SqlExpr gen.GenSched model.Sched proofs.SchedProofs proofs.SchedRevert.
+From SV Require Import model.SchedGraph proofs.SchedGraphCpl proofs.SchedGraphMachine.
 Import ListNotations.
 Open Scope N_scope.
 
@@ -102,6 +104,50 @@ Theorem C11_revert_optional_resets :
                forall f', In f' (g_files g2) -> f_key f' = f_key f ->
                           f_state f' = revert_file_state /\ f_hash f' = false).
 Proof. exact revert_optional_resets_gen. Qed.
+
+(* revert_optional_steps keeps the flag invariant of C10 (every possibly stale cached attribute is flagged) and
+   the step keys, from ANY snapshot with unique file node ids: its step writes go through the state triggers,
+   its file writes never turn a VOLATILE file into a regular one or back (only non-VOLATILE outputs are reset). *)
+Theorem C11_revert_optional_keeps_flag_invariant :
+  forall g, WF g -> FWF g -> FlagInv g ->
+    WF (fst (revert_optional g)) /\ FlagInv (fst (revert_optional g)).
+Proof.
+  intros g Hwf Hfw HF. split; [apply revert_optional_WF; assumption | apply (revert_optional_sound g Hfw HF)].
+Qed.
+
+(* hence the first decision of the next phase is exact again *)
+Theorem C11_first_decision_after_revert_is_exact :
+  forall g, WF g -> FWF g -> FlagInv g ->
+    let g1 := fst (revert_optional g) in
+    Acyclic g1 -> HasHashInv g1 ->
+    exists g', update_meta g1 = Some g' /\ AllCorrect g' /\
+      forall s, In s (dispatch_set g') <-> (In s (g_steps g') /\ eligible_spec g' s = true).
+Proof.
+  intros g Hwf Hfw HF g1 Hac HH.
+  apply dispatch_only_eligible_repo; [apply revert_optional_WF; assumption | exact Hac
+                                      | apply (revert_optional_sound g Hfw HF) | exact HH].
+Qed.
+
+(* Across whole histories (C10's combined machine: `reach idf s g` = any interleaving, from a state satisfying
+   the invariant such as the fresh database, of transactions that neither create nor delete nodes, certified
+   declaring / deleting transactions -- define_step and amend_step of steps created DURING the phase included --,
+   the metadata updates, and revert_optional_steps at a phase end): at EVERY decision every dispatched step
+   is needed above OPTIONAL and above the threshold, and a PENDING, attached, not deferred, safe, ready step with
+   free resources is dispatched iff it is needed.  Partial in the sense of
+   C10_cached_equals_spec_at_every_decision_partial (certificates for node-creating transactions); a change of
+   the targets between director runs (reconcile_targets) is not a step of the machine. *)
+Theorem C11_executed_iff_needed_at_every_decision_partial :
+  forall idf, (forall a b, idf a = idf b -> a = b) ->
+  forall s g, reach idf s g ->
+    exists g', update_meta g = Some g' /\ AllCorrect g' /\
+      (forall x, In x (dispatch_set g') ->
+         ND_OPTIONAL < need_spec g' (s_key x) /\ g_threshold g' < need_spec g' (s_key x)) /\
+      (forall x, In x (g_steps g') ->
+         s_state x = ST_PENDING -> s_detached x = false -> s_deferred x = false ->
+         fst (safe_spec g' x) = true -> ready_spec g' (s_key x) = true -> res_unavailable g' x = false ->
+         (In x (dispatch_set g') <->
+          ND_OPTIONAL < need_spec g' (s_key x) /\ g_threshold g' < need_spec g' (s_key x))).
+Proof. exact executed_iff_needed_at_every_decision. Qed.
 
 Theorem C11_queued_files_are_outputs_of_optional_steps :
   forall g f, queued_file g f = true <->
